@@ -53,6 +53,13 @@ func VerifH_c14_programs() {
 		dbs[i] = map[string]string{}
 	}
 	indexes := []int{0, 1, 15}
+	// prelude: the first connection works in database 15, the second in 0
+	vCmd(conns[0], "SELECT", "15")
+	vCmd(conns[0], "SET", "k", "a15")
+	cm[0].db = 15
+	dbs[15]["k"] = "a15"
+	vCmd(conns[1], "SET", "k", "b0")
+	dbs[0]["k"] = "b0"
 	// quick: programs of exactly 2 steps; thorough: exactly 3 (shorter programs
 	// are prefixes of these: every step is checked as it executes)
 	n := 2 + vTier()
